@@ -50,6 +50,18 @@ theorem fact_handled_envelopes :
       "Envelope_TransactionPayloadQuery", "Envelope_TransactionPayload", "Envelope_TransactionRangeQuery", "Envelope_State",
       "Envelope_TransactionSet", "Envelope_DiagnosticsBroadcast"] := by decide
 
+/-- `protocol.handle` dispatches every envelope type to the handler the model (and the harness, which calls the handlers
+    directly) uses for it; TransactionLists are queued for in-order processing by `handleTransactionList`; `Configure`
+    registers `sendGossip` as the gossip sender and `gossipTransaction` as the "gossip" notifier -/
+theorem fact_dispatch_and_wiring :
+    Facts.C07.dispatch = ["Envelope_Gossip->p.handleGossip", "Envelope_TransactionList->channel:p.listHandler.ch",
+      "Envelope_TransactionListQuery->p.handleTransactionListQuery", "Envelope_TransactionPayloadQuery->p.handleTransactionPayloadQuery",
+      "Envelope_TransactionPayload->p.handleTransactionPayload", "Envelope_TransactionRangeQuery->p.handleTransactionRangeQuery",
+      "Envelope_State->p.handleState", "Envelope_TransactionSet->p.handleTransactionSet",
+      "Envelope_DiagnosticsBroadcast->p.handleDiagnostics"] ∧
+    Facts.C07.listHandlerFunc = "p.handleTransactionList" ∧
+    Facts.C07.configureWiring = ["RegisterSender:p.sendGossip", "Notifier:\"private\":<*ast.FuncLit>", "Notifier:\"gossip\":p.gossipTransaction"] := by decide
+
 /-! ### Safety, unconditional: every schedule of the adversarial network -/
 
 /-- **Safety for ANY schedule** (deliveries in any order, any number of times or never; forged messages of any type
